@@ -25,6 +25,7 @@ import PolyplyVerif.Model.Coords
 import PolyplyVerif.Proofs.Coords
 import PolyplyVerif.Model.Walk
 import PolyplyVerif.Proofs.Walk
+import PolyplyVerif.Proofs.ComposeTopCoords
 
 namespace PolyplyVerif.C03
 open PolyplyVerif PolyplyVerif.Coords PolyplyVerif.Proofs.Coords
@@ -223,6 +224,69 @@ example : compose (P := Nat)
     (fun _ k m => if k < 2 then none else some (m.map fun r => { r with pos := some 7 })) 5 0
     [[⟨false, false, some 1, [some 1, some 2]⟩], [⟨true, true, none, [none, none, none]⟩]]
     = some [[⟨false, false, some 1, [some 1, some 2]⟩], [⟨true, true, some 7, [none, none, none]⟩]] := by
+  decide
+
+end PolyplyVerif.C03
+
+/-! ## end-to-end composition (appended; helper lemmas and bridge functions: Proofs/ComposeTopCoords.lean) -/
+
+namespace PolyplyVerif.C03
+open PolyplyVerif PolyplyVerif.Coords
+
+/-! ### composition with the topology reader (C03 ∘ C08) -/
+
+/-- **C03_listing_of_topology.**  The atom listing is determined by the READ topology, for EVERY topology
+text the (single-file) reader of C08 accepts and EVERY reading `atomsOf` of a collected molecule type's atom
+lines (vermouth's `read_itp`, a parameter of the C08 model).  Bridge (functions of `Proofs/ComposeTopCoords.lean`):
+`Compose.molLines raws` = the `[ molecules ]` lines of the text found by an independent scan;
+`parsedMols` = their counts as numbers; `Compose.bridgeTypes atomsOf g` = the collected molecule types of
+the read topology `g` as `Coords.MolType`s (last one read under a name wins).  Then the listing
+`gen_coords` writes (`Coords.listing`, C03) is defined and equals the `[ molecules ]` lines, in order, each
+expanded `count` times into the atoms of the molecule type of that name — which is also
+`topology.molecules` (`g.molecules`, C08_molecules_expand) mapped to atoms. -/
+theorem C03_listing_of_topology (atomsOf : TopParse.Group → List Atom) (raws : List String) (g : TopParse.Glob)
+    (h : TopParse.readSingle raws = .ok g) :
+    ∃ pm, Proofs.TopParse.parsedMols (Compose.molLines raws) = some pm ∧ g.molecules = TopParse.expandSpec pm ∧
+      listing (Compose.bridgeTypes atomsOf g) pm =
+        some (pm.flatMap fun m => (List.replicate m.2 (Compose.atomsOfName atomsOf g m.1)).flatten) ∧
+      listing (Compose.bridgeTypes atomsOf g) pm = some (g.molecules.flatMap (Compose.atomsOfName atomsOf g)) :=
+  Compose.listing_of_readSingle atomsOf raws g h
+
+/-- the same for every WELL-FORMED include tree the tree reader accepts (`readTop`; `wellFormed` is the
+syntactic class of `C08_flatten_equiv`): the `[ molecules ]` lines are those of the flattened text -/
+theorem C03_listing_of_topology_tree (atomsOf : TopParse.Group → List Atom) (fs : TopParse.FS) (top : TopParse.Path)
+    (st : TopParse.FlatSt) (gt : TopParse.Glob)
+    (hwf : TopParse.wellFormed fs top = true) (hfl : TopParse.flatten fs top = .ok st)
+    (hrt : TopParse.readTop fs top = .ok gt) :
+    ∃ pm, Proofs.TopParse.parsedMols (Compose.molLines st.out) = some pm ∧ gt.molecules = TopParse.expandSpec pm ∧
+      listing (Compose.bridgeTypes atomsOf gt) pm =
+        some (pm.flatMap fun m => (List.replicate m.2 (Compose.atomsOfName atomsOf gt m.1)).flatten) ∧
+      listing (Compose.bridgeTypes atomsOf gt) pm = some (gt.molecules.flatMap (Compose.atomsOfName atomsOf gt)) :=
+  Compose.listing_of_readTop atomsOf fs top st gt hwf hfl hrt
+
+/-- Non-vacuity (one text): two molecule types, three `[ molecules ]` lines with a repeated name; the text is
+read, the scan finds the three lines, and the listing is what the theorem says (atoms read with the concrete
+`Compose.groupAtoms`). -/
+example :
+    let raws := ["[ moleculetype ]", "MOL1 1", "[ atoms ]", "1 CT 1 RES A1 1", "2 CT 2 RES A2 1 ; second residue",
+                 "[ bonds ]", "1 2 1 0.15 1000", "[ moleculetype ]", "SOL 2", "[ atoms ]", "1 OW 1 SOL OW 1",
+                 "[ system ]", "title", "[ molecules ]", "SOL 2", "MOL1 1", "SOL 1"]
+    Compose.molLines raws = [("SOL", "2"), ("MOL1", "1"), ("SOL", "1")] ∧
+    (TopParse.okOf (TopParse.readSingle raws)).map (fun g =>
+        (g.molecules, listing (Compose.bridgeTypes Compose.groupAtoms g) [("SOL", 2), ("MOL1", 1), ("SOL", 1)])) =
+      some (["SOL", "SOL", "MOL1", "SOL"],
+            some [⟨1, "SOL", "OW"⟩, ⟨1, "SOL", "OW"⟩, ⟨1, "RES", "A1"⟩, ⟨2, "RES", "A2"⟩, ⟨1, "SOL", "OW"⟩]) := by
+  decide
+
+/-- Non-vacuity (include tree): the tree `Compose.exTree` (= `C08.fsGood`: six files, conditional includes, a molecule type in an
+included file) is well formed, flattened and read; its listing -/
+example :
+    TopParse.wellFormed Compose.exTree ["run", "system.top"] = true ∧
+    (TopParse.okOf (TopParse.flatten Compose.exTree ["run", "system.top"])).map (fun st => Compose.molLines st.out) =
+      some [("SOL", "2"), ("MOL1", "1"), ("SOL", "1")] ∧
+    (TopParse.okOf (TopParse.readTop Compose.exTree ["run", "system.top"])).map (fun g =>
+        listing (Compose.bridgeTypes Compose.groupAtoms g) [("SOL", 2), ("MOL1", 1), ("SOL", 1)]) =
+      some (some [⟨1, "SOL", "OW"⟩, ⟨1, "SOL", "OW"⟩, ⟨1, "RES", "A1"⟩, ⟨1, "SOL", "OW"⟩]) := by
   decide
 
 end PolyplyVerif.C03
